@@ -110,6 +110,10 @@ func (s c04Sig) def(form string) string {
 		rs := append([]string{"self is o"}, s.retList()...)
 		return "class C:\n    def f(" + strings.Join(ps, ", ") + "): return " + c04TupleSrc(rs) + "\no = C()\n"
 	}
+	if form == "closure" {
+		// every parameter is read from a nested function: the arguments have to reach the cells
+		return "def f(" + strings.Join(s.params(true), ", ") + "):\n    def g(): return " + c04TupleSrc(s.retList()) + "\n    return g()\n"
+	}
 	return "def f(" + strings.Join(s.params(true), ", ") + "): return " + c04TupleSrc(s.retList()) + "\n"
 }
 
@@ -710,6 +714,14 @@ func c04Run(rc *core.RunCtx) {
 	if rc.Expired() || rc.Done() {
 		return
 	}
+	c.pyPart("closure", sigs, calls2, names, false)
+	if rc.Expired() || rc.Done() {
+		return
+	}
+	c.pyReuse(sigs, calls2, names)
+	if rc.Expired() || rc.Done() {
+		return
+	}
 	c.goPart(calls, names)
 	if rc.Expired() || rc.Done() {
 		return
@@ -775,6 +787,67 @@ func (c *c04) pyPart(form string, sigs []c04Sig, calls []c04Call, names []string
 					rc.Guard(f, func() string { return in }, func() { c.report(f, in, "py", exp, observe(py.Call(fnv, args, kwargs))) })
 				}
 			}
+		}
+	}
+}
+
+// pyReuse: a call never changes the objects given after * and **. The sequence and the
+// mapping are built once and the same call is made twice with them: both calls give the
+// model's result and the list and the dict are afterwards what they were.
+func (c *c04) pyReuse(sigs []c04Sig, calls []c04Call, names []string) {
+	rc := c.rc
+	rc.Part = "py-reuse"
+	for _, s := range sigs {
+		def := s.def("def")
+		skey := s.key()
+		for _, cl := range calls {
+			if rc.Expired() || rc.Done() {
+				return
+			}
+			if cl.seq < 0 && !cl.hasMap {
+				continue
+			}
+			if !rc.Take() {
+				continue
+			}
+			pos, kw, dup := c04Flatten(cl, names)
+			exp := excRes("TypeError")
+			if !dup {
+				exp = c04Bind(s, pos, kw)
+			}
+			var xs, seq, mp, mpc []string
+			for i := 0; i < cl.npos; i++ {
+				xs = append(xs, itoa(11+i))
+			}
+			for _, j := range cl.kws {
+				xs = append(xs, names[j]+"="+itoa(21+j))
+			}
+			for i := 0; i < cl.seq; i++ {
+				seq = append(seq, itoa(31+i))
+			}
+			if cl.seq >= 0 {
+				xs = append(xs, "*S")
+			}
+			sort.Ints(cl.mp)
+			for _, j := range cl.mp {
+				mp = append(mp, "'"+names[j]+"': "+itoa(41+j))
+				mpc = append(mpc, "'"+names[j]+"':"+itoa(41+j))
+			}
+			if cl.hasMap {
+				xs = append(xs, "**M")
+			}
+			call := "S = [" + strings.Join(seq, ", ") + "]\nM = {" + strings.Join(mp, ", ") + "}\nr = []\nfor n in range(2):\n    try:\n        r.append(f(" + strings.Join(xs, ", ") +
+				"))\n    except TypeError:\n        r.append('TypeError')\nr.append(S)\nr.append(M)\n"
+			e1 := exp.Val
+			if exp.Exc != "" {
+				e1 = "'TypeError'"
+			}
+			sortedMp := append([]string{}, mpc...)
+			sort.Strings(sortedMp)
+			want := valRes("[" + e1 + "," + e1 + ",[" + strings.Join(seq, ",") + "],{" + strings.Join(sortedMp, ",") + "}]")
+			src := def + call
+			f := core.Fields{"part": "py-reuse", "form": "def", "via": "source", "sig": skey, "call": cl.key(names)}
+			rc.Guard(f, func() string { return src }, func() { c.report(f, src, "py-reuse", want, c.run(def, call)) })
 		}
 	}
 }
